@@ -1,5 +1,7 @@
 import Ptn.C09.Model
 import Ptn.C09.EnvProps
+import Ptn.C09.GaugeLemmas
+import Ptn.C03.Tree
 import Ptn.Common.AnalysisLocal
 import Ptn.Common.AnalysisProj
 /-! Property theorems for C09 (BUG): recursion order — children before parents, every node once,
@@ -136,6 +138,69 @@ theorem fixed_rank_step_nonexpansive {N d : Type} [Fintype N] [Fintype d] [Decid
       ≤ RCLike.re (star ψ ⬝ᵥ ψ) :=
   Ptn.Analysis.fixed_rank_step_nonexpansive E H hE hH t ψ
 
+/-! ### Gauge: the returned state is canonical at the root (both variants, every tree)
+
+The machine of `GaugeModel.lean` follows `root_update` / `update_node` event by event; `fixed` is
+`bug_config.fixed_rank` (it selects the QR mode of the centre moves and whether the basis is augmented,
+not the order of events). -/
+
+open Ptn.C17 Ptn.C17.RTree in
+/-- **After one BUG step the state is canonical at the root.**  For every well-formed tree (one node
+    included), both variants and ANY gauge recorded before the step: the machine runs through (no assertion
+    of the code fails, no `contract_all_children` swallows a real node), afterwards the root carries no
+    isometry record (it holds the evolved centre tensor), every other node is recorded as an isometric QR
+    factor toward its PARENT, no basis-change node is left in the state (identifiers are the old ones) and
+    only the frame of the start state remains; records of identifiers outside the tree are untouched. -/
+theorem bug_step_canonical_at_root (fixed : Bool) (t : RTree) (hwf : t.WF) (dir0 : Nat → Option Nat) :
+    ∃ s, Gauge.run (Gauge.start dir0 t) (Gauge.bugEvents fixed t) = some s ∧
+      s.dir t.rid = none ∧ (∀ e ∈ edges t, s.dir e.2 = some e.1) ∧
+      s.pend = [] ∧ s.frames = [t.rid] ∧ (∀ x, x ∉ ids t → s.dir x = dir0 x) :=
+  Gauge.root_runs fixed t hwf dir0
+
+open Ptn.C17 Ptn.C17.RTree in
+/-- The QR events of a step are one per non-root node, in post-order (children before parents), each
+    toward the parent, augmented exactly for the rank-adaptive variant; the centre moves on the working
+    copies are the tree edges parent -> child in pre-order, in `KEEP` mode exactly for fixed rank. -/
+theorem bug_step_qr_events (fixed : Bool) (t : RTree) :
+    (Gauge.bugEvents fixed t).filterMap Gauge.qrOf =
+        (upKeysL t.rid t.kids).map (fun e => (e.1, e.2, !fixed)) ∧
+    (Gauge.bugEvents fixed t).filterMap Gauge.moveOf = (edges t).map (fun e => (e.1, e.2, fixed)) :=
+  ⟨Gauge.root_qr_events fixed t, Gauge.root_move_events fixed t⟩
+
+open Ptn.C17 Ptn.C17.RTree Ptn.C03 in
+/-- **The truncation pass of rank-adaptive BUG keeps the state canonical at the root**
+    (`recursive_truncation` after the repair 42696fe: `truncate_node` contracts projectors into the tensors,
+    so no isometry record survives - the start `fun _ => none` -, then `tree.canonical_form(root_id)`).
+    With `dist` the table of `distance_to_node(root)`: no neighbour lookup of `canonical_form` fails and
+    afterwards every non-root node is recorded as an isometry toward its parent, the root carries no record.
+    (The structure is unchanged by the pass: `Ptn.C10.recursive_truncation_structure`.) -/
+theorem rank_adaptive_truncation_keeps_canonical (t : RTree) (hwf : t.WF) :
+    ∃ dist : Dist, distanceToNode t t.rid = some dist ∧ canonComplete dist (nbrsOf t) = true ∧
+      (∀ e ∈ edges t, applyOps (fun _ => none) (canonOps dist (nbrsOf t)) e.2 = some e.1) ∧
+      applyOps (fun _ => none) (canonOps dist (nbrsOf t)) t.rid = none := by
+  obtain ⟨dist, hd, _, _, hcomp, hdir, hroot⟩ := canon_gauge_tree t hwf t.rid (rid_mem_ids t)
+  refine ⟨dist, hd, hcomp, ?_, hroot⟩
+  intro e he
+  obtain ⟨p, c⟩ := e
+  have hc := (edge_mem_ids he).2
+  have hpd : pathDown t.rid t = some [t.rid] := by cases t; simp [rid]
+  have hne : c ∉ [t.rid] := by
+    intro h
+    have hc' : c = t.rid := by simpa using h
+    have := (edges_mem.1 t p c he).2
+    cases t with
+    | node r ks =>
+      simp only [rid] at hc'
+      subst hc'
+      have hnd : (c :: idsL ks).Nodup := by simpa [WF] using hwf
+      exact (List.nodup_cons.mp hnd).1 (by simpa [kids] using this)
+  obtain ⟨rest, hpath⟩ := next_hop_up hwf hpd hne he
+  obtain ⟨v, hv, hdv⟩ := hdir c hc (fun h => hne (by simp [h]))
+  rw [firstHop_of_path hpath] at hv
+  simp only [Option.some.injEq] at hv
+  subst hv
+  exact hdv
+
 /-! ### Non-vacuity: root 0 with children 1 (leaf) and 2 (with child 3) -/
 
 def exTree : Tree :=
@@ -144,5 +209,20 @@ def exTree : Tree :=
 example : exTree.updates = [1, 3, 2, 0] ∧ exTree.ids.Nodup := by decide
 example : exTree.edges = [(0, 1), (0, 2), (2, 3)] := by decide
 example : exTree.moves = [(0, 1), (0, 2), (2, 3)] := by decide
+
+/-- the same tree in the C17 vocabulary -/
+def exR : Ptn.C17.RTree := .node 0 [.node 1 [], .node 2 [.node 3 []]]
+
+example : exR.WF := by decide
+/-- a start gauge that is NOT canonical at the root (everything points away): the step repairs it -/
+example : (Gauge.run (Gauge.start (fun n => if n = 0 then some 2 else if n = 2 then some 3 else none) exR)
+    (Gauge.bugEvents false exR)).map (fun s => ([0, 1, 2, 3].map s.dir, s.pend, s.frames)) =
+    some ([none, some 0, some 0, some 2], [], [0]) := by decide
+example : (Gauge.bugEvents true exR).filterMap Gauge.qrOf = [(1, 0, false), (3, 2, false), (2, 0, false)] := by
+  decide
+/-- an order the code does not use (parent's basis before its child's) leaves a basis-change node that is
+    never absorbed and a stale frame: the machine is stuck - `bug_step_canonical_at_root` is not vacuous -/
+example : Gauge.run (Gauge.start (fun _ => none) exR)
+    [.down 0 2 false, .evolve 2, .basis 2 0 true, .down 2 3 false] = none := by decide
 
 end Ptn.C09
